@@ -50,6 +50,14 @@ RENAMERS = [
 
 
 # --------------------------------------------------------------------------------- worker side
+def _blank_normal_form(line):
+    """(code with its tabs expanded and the blanks before the comment removed, comment without trailing blanks): what is left of a line when only the
+    blanks that the layout stages own are disregarded - the indentation width of tabs, the gap before the comment, the end of the line."""
+    i = line.find("#")
+    code, comment = (line, "") if i < 0 else (line[:i], line[i:])
+    return code.expandtabs(4).rstrip(), comment.rstrip()
+
+
 def w_ignore(arg):
     from .. import hooks, pipeline
 
@@ -107,7 +115,7 @@ def w_ignore(arg):
                     "kind": "ignored_line_not_carried_over", "rule": rule, "input": ann,
                     "detail": {"line": w, "what_happened": kind_of_loss, "attributed_rule": rule, "direct_edit_backend": direct, "scheduled_backend": sched_touched,
                                "options": case.get("options"), "out": out[-1200:],
-                               "line_present_up_to_tab_expansion_and_trailing_blanks": w.expandtabs(4).rstrip() in out_lines},
+                               "line_present_up_to_tab_expansion_and_trailing_blanks": _blank_normal_form(w) in {_blank_normal_form(l) for l in out_lines if "#" in l}},
                     "replay": {"fn": "harness.checks.c20:w_ignore", "arg": {"cases": [case]}}})
         if not lost and out != ann and len(res["samples"]) < 1 and len(ann) < 400:
             res["samples"].append({"input": ann, "output": out, "annotated_lines_kept": len(want)})
